@@ -43,7 +43,10 @@ BOUND = {
 ASSUMPTIONS = [
     "the reference derivative is Richardson-extrapolated central differences (h=1e-3 and 2.5e-4) of the object's own "
     "logd; points where the two extrapolations disagree by >1e-6 or logd is not finite are skipped and counted",
-    "analytic gradients accepted at 1e-5*max(1,|g|); FD-option gradients at 1e-4*max(1,|g|)+100*eps*|logd|/epsilon",
+    "analytic gradients accepted at 1e-5*max(1,|g|); FD-option gradients at 1e-4*max(1,|g|)+100*eps*|logd|/epsilon; an "
+    "FD-option gradient outside that band is skipped (counted 'fd-roundoff-dominated') when it lies within 4*delta/epsilon, "
+    "delta = measured evaluation noise of the object's logd (max second difference at step epsilon along the axes): e.g. "
+    "Lognormal.logpdf = log(pdf) with pdf in the subnormal range is a step function at that scale",
     "shape is compared by number of entries (a (1,n)/(n,1) array for an n-vector is accepted)",
     "the additive constant of GMRF objects is pinned (private _logdet := 0): for neumann/periodic bc it comes from ARPACK "
     "with a process-history dependent start vector and is sometimes NaN, which would make counts non-deterministic; "
